@@ -10,6 +10,9 @@ class ViewModule:
         self.feat = features or {}
         self.lines = []
         self.structs = []          # names of top-level candidate structs (no parameters)
+        # by-construction oracle, independent of the compiler: unconditional scalar fields of Top at static
+        # offsets as (name, offset, size, kind, byte order that the language rules make effective)
+        self.oracle = []
         self.build()
 
     def f(self, name, p):
@@ -21,7 +24,8 @@ class ViewModule:
     def build(self):
         r = self.r
         L = self.lines
-        L.append('[$default byte_order: "%s"]' % r.choice(["LittleEndian", "BigEndian"]))
+        self.default_order = r.choice(["LittleEndian", "BigEndian"])
+        L.append('[$default byte_order: "%s"]' % self.default_order)
         L.append('[(cpp) namespace: "m"]')
         L.append("enum Kind:")
         L.append("  ZERO = 0")
@@ -41,7 +45,13 @@ class ViewModule:
             L.append("struct Inner:")
             L.append("  0 [+1]  UInt  len")
             self.inner_size = r.choice([4, 6, 9])
-            if r.random() < 0.5:
+            k = r.random()
+            if k < 0.3:
+                # wide scalars at offsets that are aligned RELATIVE to Inner; Top places Inner at an arbitrary offset
+                self.inner_size = 20
+                L.append("  8 [+8]  UInt  wide")
+                L.append("  16 [+4]  UInt  mid")
+            elif k < 0.65:
                 L.append("  1 [+len]  UInt:8[]  data")
             else:
                 self.inner_size = 4
@@ -54,6 +64,12 @@ class ViewModule:
             L.append("  1 [+n]  UInt:8[]  body")
             if r.random() < 0.5:
                 L.append("  let total = n + head")
+        if self.f("decoy", 0.5):
+            # a structure-level $default that must stay inside its structure
+            L.append("struct Decoy:")
+            L.append('  [$default byte_order: "%s"]' % ("BigEndian" if self.default_order == "LittleEndian" else "LittleEndian"))
+            L.append("  0 [+2]  UInt  dd")
+            L.append("  2 [+4]  Int  ee")
         # the top-level structure may itself take a parameter (passed to Make...View)
         self.top_param = None
         if self.f("top_param", 0.3):
@@ -70,6 +86,7 @@ class ViewModule:
         ints = []          # (name, max)  usable in expressions
         off = 0
         L.append("  0 [+1]  UInt  tag")
+        self.oracle.append(("tag", 0, 1, "UInt", self.default_order))
         ints.append("tag")
         if self.top_param is not None:
             ints.append("tp")
@@ -82,8 +99,10 @@ class ViewModule:
             kind = r.choice(["UInt", "UInt", "Int", "Bcd"])
             size = r.choice([1, 1, 2, 2, 3, 4, 8])
             bo = ""
+            order = self.default_order
             if r.random() < 0.3:
-                bo = '\n    [byte_order: "%s"]' % r.choice(["LittleEndian", "BigEndian"])
+                order = r.choice(["LittleEndian", "BigEndian"])
+                bo = '\n    [byte_order: "%s"]' % order
             pos = "%d" % off if dynamic_off is None else "%s + %d" % (dynamic_off[0], off - dynamic_off[1])
             if self.f("next", 0.2) and i > 0:
                 pos = "$next"
@@ -106,6 +125,8 @@ class ViewModule:
                 L.append("    %s [+%d]  %s  %s%s" % (pos, size, kind, name, bo.replace("\n    ", "\n      ")))
             else:
                 L.append("  %s [+%d]  %s  %s%s" % (pos, size, kind, name, bo))
+                if dynamic_off is None:
+                    self.oracle.append((name, off, size, kind, order))
                 if size <= 2 and kind == "UInt":
                     ints.append(name)
             names.append(name)
